@@ -129,9 +129,14 @@ pub fn build_root(rng: &mut Rng, version: RootVersion, total: usize, named: &str
     }
     // FileDataIDs ascending with assorted gaps
     let mut fdids: Vec<u32> = Vec::with_capacity(total);
-    let mut cur: u64 = match rng.below(4) {
-        0 => 0,
-        1 => 1,
+    let mut cur: u64 = match rng.below(10) {
+        0 | 1 => 0,
+        2 => 1,
+        // ids around the sign bit of the 32-bit delta encoding and in the upper half of the id space
+        3 => 0x8000_0000 - rng.below(600),
+        4 => 0x8000_0000,
+        5 => 0x7fff_ffff,
+        6 => 0xf000_0000 + rng.below(1_000_000),
         _ => rng.below(5_000_000),
     };
     for _ in 0..total {
